@@ -118,6 +118,30 @@ def generate(write, Fail) -> None:  # noqa: N803
     out.append("(* (code, verb index [I;RQ;RP;W], Rp, Rf): re.match succeeds iff a prefix is in L(Rp) or the whole payload in L(Rf) *)")
     out.append("Definition PAYLOAD_REGEXES : list (Z * Z * re * re) :=\n  [" + ";\n   ".join(rows) + "].")
     out.append(f"Definition KNOWN_CODES : list Z := [{'; '.join(str(int(c, 16)) for c in sorted(CODES_SCHEMA))}].")
+    # --- schema validator (C15): the zone-index key regex and the range the max_zones option may take ---
+    import ramses_rf.schemas as rsch  # noqa: PLC0415
+    import voluptuous as vol  # noqa: PLC0415
+
+    zi = getattr(rsch, "SCH_ZON_IDX", None)
+    if not isinstance(zi, vol.Match):
+        raise Fail("ramses_rf.schemas.SCH_ZON_IDX is expected to be a vol.Match")
+    rp, rf = regex_to_coq(zi.pattern.pattern, Fail)
+    if rp != "Emp":
+        raise Fail("SCH_ZON_IDX is expected to end with '$'")
+    out.append(f"Definition ZONE_IDX_RE : re := {rf}.")
+    rng = None
+    for k, v in rsch.SCH_GATEWAY_DICT.items():
+        if str(k) == "max_zones" and isinstance(v, vol.All):
+            rng = next((x for x in v.validators if isinstance(x, vol.Range)), None)
+    if rng is None or not isinstance(rng.max, int) or not isinstance(rng.min, int):
+        raise Fail("SCH_GATEWAY_DICT[max_zones] is expected to be vol.All(int, vol.Range(min, max))")
+    zl = rsch.SCH_TCS_ZONES
+    ln = next((x for x in getattr(zl, "validators", []) if isinstance(x, vol.Length)), None)
+    if ln is None or not isinstance(ln.max, int):
+        raise Fail("SCH_TCS_ZONES is expected to be vol.All(vol.Schema(...), vol.Length(min, max))")
+    out.append(f"Definition ZONES_MAX_LEN : Z := {ln.max}.")
+    out.append(f"Definition MAX_ZONES_MIN : Z := {rng.min}.")
+    out.append(f"Definition MAX_ZONES_MAX : Z := {rng.max}.")
     write("GenRegex.v", "\n".join(out) + "\n")
     gen_code_tables(write, Fail)
 
